@@ -7,6 +7,7 @@ import (
 	"sync/atomic"
 	"testing"
 
+	"github.com/syndtr/goleveldb/leveldb/iterator"
 	"github.com/syndtr/goleveldb/leveldb/memdb"
 	"github.com/syndtr/goleveldb/leveldb/util"
 	"pgregory.net/rapid"
@@ -36,9 +37,20 @@ type MOp struct {
 	S    *int       `json:"s,omitempty"`
 	L    *int       `json:"l,omitempty"`
 	Walk []dbm.Move `json:"walk,omitempty"`
+	Slot int        `json:"slot,omitempty"` // hopen hmove hrel: which long-lived iterator
+}
+
+// heldIt is a long-lived iterator with the checker's idea of where it stands.
+type heldIt struct {
+	it    iterator.Iterator
+	s, l  []byte
+	pos   int    // -1: invalid, next move forward starts at the first pair; 0: on key; +1: invalid after the end
+	key   []byte // pos == 0
+	stale bool   // the pair it stands on was deleted after it was positioned: its successor link is history
 }
 
 type mStats struct {
+	heldMovesAfterMutation                                   int
 	overwriteDiffLen, delAbsent, reset, rangedWalk, reversal bool
 	overlapPuts                                              int64
 }
@@ -84,10 +96,113 @@ func runMem(c *MCase) (st mStats, err error) {
 		}
 		return nil
 	}
+	helds := map[int]*heldIt{}
+	mutations := 0
+	releaseHelds := func() {
+		for s, h := range helds {
+			h.it.Release()
+			delete(helds, s)
+		}
+	}
+	defer releaseHelds()
+	// heldMove applies one movement to a long-lived iterator. The table may have changed since
+	// the iterator was positioned; the memdb documents that as allowed. What the move must yield
+	// follows from the current contents: First/Last/Seek search afresh, Prev searches from the
+	// key the iterator stands on, Next follows the successor link of the pair it stands on -
+	// which is the current successor unless that pair was deleted meanwhile (then the checker
+	// re-seeks instead of stepping).
+	heldMove := func(i int, h *heldIt, mv dbm.Move) error {
+		l := m.Sorted(cmp.Compare, h.s, h.l)
+		cur := model.NewCursor(l, cmp.Compare)
+		switch h.pos {
+		case -1:
+			cur.P = -1
+		case 1:
+			cur.P = len(l)
+		default:
+			cur.Seek(h.key) // on the key, or (key deleted) on the insertion point
+		}
+		sk := key(mv.K)
+		what := mv.M
+		if what == "next" && h.pos == 0 && h.stale {
+			what, sk = "seek", append([]byte{}, h.key...)
+		}
+		var got, want bool
+		switch what {
+		case "first":
+			got, want = h.it.First(), cur.First()
+		case "last":
+			got, want = h.it.Last(), cur.Last()
+		case "seek":
+			got, want = h.it.Seek(sk), cur.Seek(sk)
+			what = fmt.Sprintf("seek(%q)", sk)
+		case "next":
+			got, want = h.it.Next(), cur.Next()
+		case "prev":
+			got, want = h.it.Prev(), cur.Prev()
+		default:
+			return nil
+		}
+		where := fmt.Sprintf("op #%d long-lived iterator [%q,%q) %s from %s", i, h.s, h.l, what, map[int]string{-1: "before the start", 1: "after the end", 0: fmt.Sprintf("%q", h.key)}[h.pos])
+		if got != want || h.it.Valid() != want {
+			return fmt.Errorf("%s: returned %v (Valid %v, key %q), the current contents say %v", where, got, h.it.Valid(), h.it.Key(), want)
+		}
+		if want {
+			if !bytes.Equal(h.it.Key(), cur.Cur().K) || !bytes.Equal(h.it.Value(), cur.Cur().V) {
+				return fmt.Errorf("%s: yields %q -> %.30q, the current contents say %q -> %.30q", where, h.it.Key(), h.it.Value(), cur.Cur().K, cur.Cur().V)
+			}
+			h.pos, h.key = 0, append([]byte{}, cur.Cur().K...)
+		} else if cur.P < 0 {
+			h.pos, h.key = -1, nil
+		} else {
+			h.pos, h.key = 1, nil
+		}
+		h.stale = false
+		return nil
+	}
 	for i, op := range c.Ops {
 		k := key(op.K)
 		switch op.T {
+		case "hopen":
+			if h := helds[op.Slot]; h != nil {
+				h.it.Release()
+			}
+			var s, l []byte
+			if op.S != nil {
+				s = key(*op.S)
+			}
+			if op.L != nil {
+				l = key(*op.L)
+			}
+			if s != nil && l != nil && cmp.Compare(s, l) > 0 {
+				s, l = l, s
+			}
+			var slice *util.Range
+			if s != nil || l != nil {
+				slice = &util.Range{Start: s, Limit: l}
+			}
+			helds[op.Slot] = &heldIt{it: db.NewIterator(slice), s: s, l: l, pos: -1}
+		case "hmove":
+			if helds[op.Slot] == nil {
+				helds[op.Slot] = &heldIt{it: db.NewIterator(nil), pos: -1}
+			}
+			if h := helds[op.Slot]; h != nil {
+				for _, mv := range op.Walk {
+					if err := heldMove(i, h, mv); err != nil {
+						return st, err
+					}
+					if mutations > 0 {
+						st.heldMovesAfterMutation++
+					}
+				}
+			}
+		case "hrel":
+			if h := helds[op.Slot]; h != nil {
+				h.it.Release()
+				delete(helds, op.Slot)
+			}
 		case "put":
+			mutations++
 			v := gen.VSpec{Len: op.VLen}.Bytes(fmt.Sprintf("%d", i))
 			if old, ok := m.Get(k); ok && len(old) != len(v) {
 				st.overwriteDiffLen = true
@@ -113,6 +228,12 @@ func runMem(c *MCase) (st mStats, err error) {
 				}
 			}
 			m.Delete(k)
+			mutations++
+			for _, h := range helds {
+				if h.pos == 0 && bytes.Equal(h.key, k) {
+					h.stale = true
+				}
+			}
 		case "get":
 			want, ok := m.Get(k)
 			got, err := db.Get(k)
@@ -142,6 +263,7 @@ func runMem(c *MCase) (st mStats, err error) {
 				hold(rv)
 			}
 		case "reset":
+			releaseHelds() // Reset invalidates iterators
 			db.Reset()
 			holds = nil
 			m = model.NewMap()
@@ -347,7 +469,7 @@ func drawMCase(t *rapid.T, conc bool) *MCase {
 	c.Keys = gen.DrawKeyPool(t, 2, 24)
 	nk := len(c.Keys)
 	og := rapid.Custom(func(t *rapid.T) MOp {
-		op := MOp{T: rapid.SampledFrom([]string{"put", "put", "put", "put", "del", "del", "get", "find", "find", "walk", "walk", "reset"}).Draw(t, "op")}
+		op := MOp{T: rapid.SampledFrom([]string{"put", "put", "put", "put", "del", "del", "get", "find", "find", "walk", "walk", "reset", "hopen", "hmove", "hmove", "hmove", "hmove", "hrel"}).Draw(t, "op")}
 		if op.T == "reset" && rapid.IntRange(0, 3).Draw(t, "rr") != 0 {
 			op.T = "put"
 		}
@@ -355,6 +477,25 @@ func drawMCase(t *rapid.T, conc bool) *MCase {
 		switch op.T {
 		case "put":
 			op.VLen = rapid.SampledFrom([]int{0, 1, 5, 40, 300, 3000}).Draw(t, "vl")
+		case "hopen", "hmove", "hrel":
+			op.Slot = rapid.IntRange(0, 2).Draw(t, "slot")
+			if op.T == "hopen" {
+				if rapid.IntRange(0, 9).Draw(t, "rs") >= 6 {
+					v := rapid.IntRange(0, nk-1).Draw(t, "rsk")
+					op.S = &v
+				}
+				if rapid.IntRange(0, 9).Draw(t, "rl") >= 6 {
+					v := rapid.IntRange(0, nk-1).Draw(t, "rlk")
+					op.L = &v
+				}
+			}
+			if op.T == "hmove" {
+				op.Walk = dbm.DrawWalk(t, nk, 4)
+				// re-seeking the key just written or deleted is the interesting move: bias towards it
+				if rapid.Bool().Draw(t, "samekey") && len(op.Walk) > 0 {
+					op.Walk[0] = dbm.Move{M: "seek", K: op.K}
+				}
+			}
 		case "walk":
 			if rapid.IntRange(0, 9).Draw(t, "rs") >= 4 {
 				v := rapid.IntRange(0, nk-1).Draw(t, "rsk")
@@ -368,7 +509,7 @@ func drawMCase(t *rapid.T, conc bool) *MCase {
 		}
 		return op
 	})
-	c.Ops = rapid.SliceOfN(og, 1, 120).Draw(t, "ops")
+	c.Ops = rapid.SliceOfN(og, rapid.SampledFrom([]int{1, 1, 10, 30, 60}).Draw(t, "minops"), 120).Draw(t, "ops")
 	if conc {
 		c.Readers = rapid.IntRange(2, 8).Draw(t, "readers")
 		c.WPuts = rapid.SampledFrom([]int{200, 1000, 3000}).Draw(t, "wputs")
@@ -411,6 +552,7 @@ func TestC14(t *testing.T) {
 		add(st.reset, "reset-and-reuse")
 		add(st.rangedWalk, "ranged-walk")
 		add(st.reversal, "reversal")
+		add(st.heldMovesAfterMutation > 0, "long-lived-iterator-moved-after-mutation")
 		add(c.Readers > 0, "concurrent-phase")
 		add(st.overlapPuts >= 100, "readers-overlapped>=100-puts")
 		nt := (st.overwriteDiffLen && st.delAbsent && st.rangedWalk) || st.overlapPuts >= 100
